@@ -49,7 +49,7 @@ def gen_reads(rng, n, paired):
             if rng.random() < 0.15:
                 q = "".join(chr(rng.choice([30, 31, 35, 60, 70])) for _ in s)   # below the base: zero-cap matters
             return s, q
-        tail = rng.choice(["x/1", "x/1", "x_b_a", "x_a_a", "x", "x/1/1"])
+        tail = rng.choice(["x/1", "x/1", "x_b_a", "x_a_a", "x", "x/1/1", "t={name} x/1", "{name}"])   # headers are free text
         sep = "\t" if i % 5 == 2 else " "      # id and comment may be separated by a tab (SAM-style tags)
         s, q = one(1)
         out1.append((f"r{i}{sep}length={len(s)} {tail}", s, q))
